@@ -372,6 +372,7 @@ def enumerate_cases(tier, seed):
     cases += s3.torsion_cases("AMBER")
     cases += s3.alias_cases()
     cases += s3.altloc_cases("AMBER")
+    cases += s3.water_h_cases("AMBER")
     for seq, naming in ((["DA", "DT", "DG", "DC"], "legacy"),
                         (["RA", "RU", "RG", "RC"], "modern"),
                         (["DT", "DC"], "star"), (["RG", "RU"], "short")):
